@@ -220,7 +220,7 @@ impl<'a> Name<'a> {
 					false
 				}
 				// Followed by an integer resource id
-				else if string.as_bytes()[1] > b'0' && string.as_bytes()[1] <= b'9' {
+				else if string.as_bytes()[1] >= b'0' && string.as_bytes()[1] <= b'9' {
 					match string[1..].parse::<u32>() {
 						Ok(string_id) if id == string_id => true,
 						_ => false,
